@@ -27,7 +27,7 @@ RUN_TIMEOUT_S = 60.0
 MIN_BUDGET = 200
 
 TIERS = {
-    'quick': {'runs': 30000, 'classes': 8, 'budget_s': 80},
+    'quick': {'runs': 30000, 'classes': 8, 'budget_s': 60},
     'thorough': {'runs': 150000, 'classes': 32, 'budget_s': 1100},
 }
 
